@@ -23,7 +23,9 @@ import (
 // ---------------------------------------------------------------------------------------------
 // the checker's own notion of equality ("" = equal, else the first differing field)
 
-func diffTime(a, b time.Time) bool { return !a.Equal(b) || a.UnixNano() != b.UnixNano() || a.IsZero() != b.IsZero() }
+func diffTime(a, b time.Time) bool {
+	return !a.Equal(b) || a.UnixNano() != b.UnixNano() || a.IsZero() != b.IsZero()
+}
 
 func diffPSH(a, b types.PartSetHeader) string {
 	if a.Total != b.Total {
@@ -234,8 +236,9 @@ func diffBlock(a, b *types.Block) string {
 // ---------------------------------------------------------------------------------------------
 
 type rtItem struct {
-	name string
-	run  func() []obs
+	name  string
+	run   func() []obs
+	group string // items of one non-empty group share objects and run sequentially in one goroutine
 }
 
 func rtSig(kind, field, oracle string) string {
@@ -279,7 +282,7 @@ func permutations(n int) [][]int {
 
 func blockItems(b *baseBlock) []rtItem {
 	var items []rtItem
-	items = append(items, rtItem{"block-proto:" + b.name, func() (out []obs) {
+	items = append(items, rtItem{name: "block-proto:" + b.name, run: func() (out []obs) {
 		pb, bz, dec, err := wireBlock(b.block)
 		_ = pb
 		if err != nil {
@@ -304,7 +307,7 @@ func blockItems(b *baseBlock) []rtItem {
 		}
 		return
 	}})
-	items = append(items, rtItem{"block-parts:" + b.name, func() (out []obs) {
+	items = append(items, rtItem{name: "block-parts:" + b.name, run: func() (out []obs) {
 		bz, err := encodeBlock(b.block)
 		if err != nil {
 			return []obs{{rtSig("block-parts", "", "encode-error"), err.Error()}}
@@ -349,14 +352,17 @@ func blockItems(b *baseBlock) []rtItem {
 		}
 		return
 	}})
-	items = append(items, rtItem{"rawdb:" + b.name, func() (out []obs) {
+	items = append(items, rtItem{name: "rawdb:" + b.name, run: func() (out []obs) {
 		db := memorydb.New()
 		bz, _ := encodeBlock(b.block)
 		// another block at the other height in the same database
-		var otherB *baseBlock
+		var otherB *types.Block
 		for _, o := range family {
-			if o.height != b.height {
-				otherB = o
+			if o.height != b.height && o.bz != nil {
+				// a private copy: the family blocks are shared with other goroutines
+				if cp, err := decodeBlock(o.bz); err == nil {
+					otherB = cp
+				}
 				break
 			}
 		}
@@ -375,7 +381,7 @@ func blockItems(b *baseBlock) []rtItem {
 		}
 		all := []stored{mk(b.block, 2)}
 		if otherB != nil {
-			all = append(all, mk(otherB.block, 0))
+			all = append(all, mk(otherB, 0))
 		}
 		_ = bz
 		for _, s := range all {
@@ -479,7 +485,7 @@ func simpleItems() []rtItem {
 								for _, sg := range rtSigs {
 									v := &types.Vote{Type: ty, Height: h, Round: rd, BlockID: id, Timestamp: tm.t, ValidatorAddress: ad, ValidatorIndex: ix, Signature: sg.s}
 									name := fmt.Sprintf("vote:type=%d,height=%d,round=%d,id=%d,time=%s,addr=%d,index=%d,sig=%s", ty, h, rd, ii, tm.n, ai, ix, sg.n)
-									items = append(items, rtItem{name, func() []obs {
+									items = append(items, rtItem{name: name, run: func() []obs {
 										if v.ValidateBasic() != nil {
 											return nil
 										}
@@ -520,7 +526,7 @@ func simpleItems() []rtItem {
 						for _, sg := range rtSigs {
 							p := &types.Proposal{Height: h, Round: rd, POLRound: pol, POLBlockID: id, Timestamp: tm.t, Signature: sg.s}
 							name := fmt.Sprintf("proposal:height=%d,round=%d,pol=%d,id=%d,time=%s,sig=%s", h, rd, pol, ii, tm.n, sg.n)
-							items = append(items, rtItem{name, func() []obs {
+							items = append(items, rtItem{name: name, run: func() []obs {
 								if p.ValidateBasic() != nil {
 									return nil
 								}
@@ -572,7 +578,7 @@ func simpleItems() []rtItem {
 					h, rd, id, sl := h, rd, id, sl // go.mod says go 1.18: loop variables are shared
 					c := types.NewCommit(h, rd, id, sl.s)
 					name := fmt.Sprintf("commit:height=%d,round=%d,id=%d,sigs=%s", h, rd, ii, sl.n)
-					items = append(items, rtItem{name, func() []obs {
+					items = append(items, rtItem{name: name, run: func() []obs {
 						if c.ValidateBasic() != nil {
 							return nil
 						}
@@ -601,7 +607,7 @@ func simpleItems() []rtItem {
 	// commits of the block family
 	for _, b := range family {
 		b := b
-		items = append(items, rtItem{"commit-of:" + b.name, func() []obs {
+		items = append(items, rtItem{group: b.name, name: "commit-of:" + b.name, run: func() []obs {
 			c := b.block.LastCommit()
 			back, err := wireCommit(c)
 			if err != nil {
@@ -635,7 +641,7 @@ func simpleItems() []rtItem {
 						}
 						p := &types.Part{Index: ix, Bytes: bs, Proof: pr}
 						name := fmt.Sprintf("part:index=%d,bytes=%d,total=%d,proofindex=%d,aunts=%d", ix, bi, tot, pi, na)
-						items = append(items, rtItem{name, func() []obs {
+						items = append(items, rtItem{name: name, run: func() []obs {
 							if p.ValidateBasic() != nil || p.Proof.ValidateBasic() != nil {
 								return nil
 							}
@@ -657,7 +663,7 @@ func simpleItems() []rtItem {
 	for ii, id := range []types.BlockID{idZero, idA, idMax, idLow, {Hash: hashOf(1)}, {PartsHeader: types.PartSetHeader{Total: 1}}} {
 		id := id
 		name := fmt.Sprintf("blockid:%d", ii)
-		items = append(items, rtItem{name, func() []obs {
+		items = append(items, rtItem{name: name, run: func() []obs {
 			if id.ValidateBasic() != nil {
 				return nil
 			}
@@ -699,7 +705,10 @@ func simpleItems() []rtItem {
 func allRTItems() []rtItem {
 	var items []rtItem
 	for _, b := range family {
-		items = append(items, blockItems(b)...)
+		for _, it := range blockItems(b) {
+			it.group = b.name
+			items = append(items, it)
+		}
 	}
 	return append(items, simpleItems()...)
 }
@@ -723,9 +732,29 @@ func runRoundTrips() {
 	items := allRTItems()
 	res := make([][]obs, len(items))
 	ran := make([]bool, len(items))
-	done := par.For(int64(len(items)), 8, r.Expired, func(i int64) { res[i] = runItem(items[i]); ran[i] = true })
-	if done < int64(len(items)) {
-		r.NotExhaustive(fmt.Sprintf("round trips: %d of %d done", done, len(items)))
+	var units [][]int
+	byGroup := map[string]int{}
+	for i, it := range items {
+		if it.group == "" {
+			units = append(units, []int{i})
+			continue
+		}
+		u, ok := byGroup[it.group]
+		if !ok {
+			u = len(units)
+			byGroup[it.group] = u
+			units = append(units, nil)
+		}
+		units[u] = append(units[u], i)
+	}
+	done := par.For(int64(len(units)), 4, r.Expired, func(u int64) {
+		for _, i := range units[u] {
+			res[i] = runItem(items[i])
+			ran[i] = true
+		}
+	})
+	if done < int64(len(units)) {
+		r.NotExhaustive(fmt.Sprintf("round trips: %d of %d units done", done, len(units)))
 	}
 	for i, it := range items {
 		if !ran[i] {
